@@ -314,7 +314,7 @@ def explore(run):
         return
     closure_cases(run, [rand_graph(rng) for _ in range(3000 if thorough else 300)])
     if thorough:
-        closure_cases(run, [[[i, i + 1] for i in range(1, n)] for n in (50, 100, 200)])
+        closure_cases(run, [[[i, i + 1] for i in range(1, n)] for n in (33, 64, 65, 100)])
     if run.full():
         return
     corpus = []
